@@ -1,5 +1,6 @@
 #include "plangen.h"
 #include <algorithm>
+#include <string.h>
 
 int
 pick_violation(Rng &r, const JobSpec &s)
@@ -116,6 +117,12 @@ profile_by_name(const std::string &name, const std::string &prop, int tier)
                                 su.order = d == 1 ? IMB_ORDER_HASH_CIPHER : IMB_ORDER_CIPHER_HASH;
                                 p.fixed_suites.push_back(su);
                         }
+        } else if (name == "scrub") { // C13
+                p.oracles = OR_FIFO | OR_SCRUB;
+                p.max_ops = 40;
+                p.max_len = 600;
+                p.allow_full = false;
+                p.big_lens = false;
         } else if (name == "keyprep") { // C11
                 p.oracles = OR_FIFO | OR_REF;
                 p.max_ops = 60;
@@ -123,6 +130,11 @@ profile_by_name(const std::string &name, const std::string &prop, int tier)
         } else if (name == "entry") { // C09
                 p.oracles = OR_FIFO | OR_DESC | OR_MEM | OR_REF;
                 p.max_len = 1500;
+        } else if (name == "reject_sync") { // C12, synchronous bursts
+                p.oracles = OR_FIFO | OR_DESC | OR_MEM | OR_REJECT;
+                p.allow_invalid = true;
+                p.guard = true;
+                p.max_len = 600;
         } else if (name == "sgl") { // C10
                 p.oracles = OR_FIFO | OR_DESC | OR_SOLO | OR_REF;
                 p.max_len = 600;
@@ -163,7 +175,7 @@ gen_plan(const ProfileCfg &pc, uint64_t run_seed)
         const double p_flush = flushiness[r.below(6)];
         const double p_getc = r.chance(0.5) ? 0.05 : 0.3;
         const double p_qs = 0.05;
-        const double p_getnext = 0.02;
+        const double p_getnext = r.chance(0.5) ? 0.02 : 0.1;
         const double p_invalid = pc.allow_invalid && r.chance(0.6) ? (r.chance(0.5) ? 0.05 : 0.25) : 0.0;
         const double p_misuse = pc.allow_misuse && r.chance(0.4) ? 0.04 : 0.0;
         const double p_nocheck = r.chance(0.5) ? 0.0 : 0.5;
@@ -225,6 +237,9 @@ gen_plan(const ProfileCfg &pc, uint64_t run_seed)
                         op.kind = OP_QUEUE_SIZE;
                 } else if ((u -= p_getnext) < 0) {
                         op.kind = OP_GET_NEXT;
+                        // half of them take the slot, fill it and submit only later (other calls in between)
+                        if (!burst_phase && r.chance(0.6))
+                                op.jobs.push_back(mkjob(false));
                 } else if (burst_phase) {
                         op.kind = OP_BURST;
                         uint32_t y = r.below(20);
@@ -344,6 +359,19 @@ gen_plan_entry(const ProfileCfg &pc, uint64_t run_seed)
                                 n = 8;
                         for (uint32_t k = 0; k < n; k++)
                                 op.jobs.push_back(gen_job(r, s, go));
+                        if (pc.allow_invalid && !op.nocheck && r.chance(0.3)) {
+                                // an invalid job somewhere in a checked synchronous burst (only violations that make
+                                // sense for the burst's fixed cipher/hash/direction/key size)
+                                JobSpec &j = op.jobs[r.below(n)];
+                                for (int tries = 0; tries < 8 && !j.viol; tries++) {
+                                        int v = pick_violation(r, j);
+                                        const char *nm = viol_name(v);
+                                        if (!strcmp(nm, "cipher_mode") || !strcmp(nm, "hash_alg") || !strcmp(nm, "cipher_direction") ||
+                                            !strcmp(nm, "key_len") || !strncmp(nm, "aead_", 5))
+                                                continue; // these are call arguments in the synchronous API, not job fields
+                                        j.viol = (uint16_t) v;
+                                }
+                        }
                 } else {
                         op.kind = OP_DIRECT;
                         op.a = (int) r.range(1, D_NFN - 1);
